@@ -3,7 +3,7 @@
 # existing suite passes with the change, demo fails with it and passes without it; then store it under
 # /verif/seeded/<name>/ and run our check against it (applied to /repo, reverted afterwards).
 set -u
-ID="$1"; NAME="${2:-$ID}"; WT=/tmp/seed/$ID; OUT=/verif/seeded/$NAME
+ID="$1"; NAME="${2:-$ID}"; WT=${SEEDROOT:-/tmp/seed}/$ID; OUT=/verif/seeded/$NAME
 cd "$WT" || exit 2
 [ -f seed_out/patch.diff ] || { echo "no patch.diff"; exit 2; }
 export CARGO_NET_OFFLINE=true
